@@ -91,6 +91,8 @@ class C19(Prop):
              "client_kwargs": ck, "knobs": {"recv_size": rng.choice([4096, 4096, 64, 7, 1]),
                                             "log_debug": rng.random() < 0.15},
              "init": {"net": gen.gen_net(rng, 0.7) or {}}}
+        if rng.random() < 0.12:
+            w["tls"] = True          # a TLS context is configured as well: it says nothing about ip versus name
         keys = [rng.choice([b"k%d" % j, "s%d" % j, b"user:%d" % j]) for j in range(rng.randint(4, 10))]
         steps = []
 
